@@ -314,17 +314,23 @@ func (v *c20Viol) better(rank int, d []byte) bool { // is (rank, d) a smaller co
 }
 
 type c20Worker struct {
-	n         [c20nCounters]int64
-	fam       map[string]int64
-	famCur    string
-	outcomes  map[uint64]struct{}
-	viol      map[string]*c20Viol
-	kindsAcc  uint8           // extension header kinds walked in a both-accept case
-	protoAcc  map[uint16]bool // ver<<8|proto accepted by both
-	maxExtAcc int
-	samples   map[string][]any // per family
-	fp        firewall.ParsedPacket
-	seen      *c20Bitmap
+	n           [c20nCounters]int64
+	fam         map[string]int64
+	famCur      string
+	outcomes    map[uint64]struct{}
+	viol        map[string]*c20Viol
+	kindsAcc    uint8           // extension header kinds walked in a both-accept case
+	protoAcc    map[uint16]bool // ver<<8|proto accepted by both
+	maxExtAcc   int
+	samples     map[string][]any // per family
+	fp          firewall.ParsedPacket
+	ref         c20Ref
+	ctxIncoming bool
+	famDistinct bool
+	ctxRef      *c20Ref
+	ctxPanic    any
+	wk          c20WalkCtx
+	seen        *c20Bitmap
 }
 
 // c20Bitmap: lower-bound distinct counter. A hash whose bit is already set counts as a duplicate.
@@ -406,7 +412,45 @@ func c20Ver(d []byte) string {
 	return "v?"
 }
 
-func (w *c20Worker) report(sig string, refOK bool, d []byte, mk func() map[string]any) {
+// detail kinds for report (context lives in worker fields: no closure is allocated on the hot path)
+const (
+	c20DetPacket = iota // w.ctxIncoming / w.ctxRef / w.ctxFp
+	c20DetWalker        // w.wk
+)
+
+type c20WalkCtx struct {
+	p               uint8
+	off             int
+	isFrag, anyFrag bool
+	err             error
+	panicked        any
+	rw              c20Walk
+}
+
+func (w *c20Worker) detail(kind int) map[string]any {
+	if kind == c20DetWalker {
+		k := &w.wk
+		m := map[string]any{"site": "iputil.IPv6FindUpperProtocol", "impl": map[string]any{"proto": k.p, "offset": k.off, "isFragment": k.isFrag, "anyFragment": k.anyFrag, "err": fmt.Sprint(k.err)},
+			"reference": map[string]any{"ok": k.rw.ok, "why": k.rw.why, "proto": k.rw.proto, "offset": k.rw.off, "non_first_fragment": k.rw.nonFirst, "any_fragment": k.rw.fragAny, "ext_headers_walked": k.rw.n}}
+		if k.panicked != nil {
+			m["panic"] = fmt.Sprint(k.panicked)
+		}
+		return m
+	}
+	m := map[string]any{"incoming": w.ctxIncoming, "reference": c20RefJSON(w.ctxRef)}
+	if w.ctxPanic != nil {
+		m["panic"] = fmt.Sprint(w.ctxPanic)
+	} else {
+		m["impl"] = c20FpJSON(&w.fp)
+	}
+	return m
+}
+
+func (w *c20Worker) bad(ver, field string, d []byte) {
+	w.report(ver+": "+field+" differs from the independent parser", true, d, c20DetPacket)
+}
+
+func (w *c20Worker) report(sig string, refOK bool, d []byte, kind int) {
 	w.n[c20nViolating]++
 	rank := 1
 	if refOK {
@@ -416,7 +460,7 @@ func (w *c20Worker) report(sig string, refOK bool, d []byte, mk func() map[strin
 	if old != nil && !old.better(rank, d) {
 		return
 	}
-	det := mk()
+	det := w.detail(kind)
 	det["packet_hex"] = hex.EncodeToString(d)
 	det["packet_len"] = len(d)
 	det["family"] = w.famCur
@@ -449,16 +493,16 @@ func c20FpJSON(fp *firewall.ParsedPacket) map[string]any {
 // check evaluates one byte string: reference once, real parser in both directions, real walker once for IPv6.
 func (w *c20Worker) check(d []byte) {
 	d = d[:len(d):len(d)] // cap == len: a slice expression reaching past the packet panics instead of reading the backing array
-	ref := c20Reference(d)
+	w.ref = c20Reference(d)
+	ref := &w.ref
 	w.fam[w.famCur]++
 	for _, incoming := range [2]bool{true, false} {
 		w.n[c20nEvals]++
 		fp := &w.fp
 		err, panicked := c20Call(d, incoming, fp)
+		w.ctxIncoming, w.ctxRef, w.ctxPanic = incoming, ref, panicked
 		if panicked != nil {
-			w.report(c20Ver(d)+": newPacket panics", ref.ok, d, func() map[string]any {
-				return map[string]any{"incoming": incoming, "panic": fmt.Sprint(panicked), "reference": c20RefJSON(&ref)}
-			})
+			w.report(c20Ver(d)+": newPacket panics", ref.ok, d, c20DetPacket)
 			continue
 		}
 		if incoming {
@@ -466,7 +510,7 @@ func (w *c20Worker) check(d []byte) {
 		} else {
 			w.n[c20nOut]++
 		}
-		if (err == nil || ref.ok) && w.seen.add(c20Hash(d, incoming)) {
+		if (err == nil || ref.ok) && (w.famDistinct || w.seen.add(c20Hash(d, incoming))) {
 			w.n[c20nNonTrivial]++
 		}
 		if err != nil {
@@ -479,10 +523,10 @@ func (w *c20Worker) check(d []byte) {
 			w.outcomes[2<<40|c20ErrClass(err)] = struct{}{}
 			continue
 		}
-		w.judge(d, incoming, &ref, fp)
+		w.judge(d, incoming, ref, fp)
 	}
 	if len(d) > 0 && d[0]>>4 == 6 {
-		w.checkWalker(d, &ref)
+		w.checkWalker(d, ref)
 	}
 }
 
@@ -505,20 +549,16 @@ func c20ErrClass(err error) uint64 {
 // judge: the real parser accepted (err == nil).
 func (w *c20Worker) judge(d []byte, incoming bool, ref *c20Ref, fp *firewall.ParsedPacket) {
 	ver := c20Ver(d)
-	mk := func() map[string]any {
-		return map[string]any{"incoming": incoming, "impl": c20FpJSON(fp), "reference": c20RefJSON(ref)}
-	}
 	// IPv6: never an extension header number. The only tolerated case is the fragmented-protocol field of a non-first
 	// fragment that the reference reports as well (assumption recorded in the evidence).
 	if ver == "v6" && c20IsExt(fp.Protocol) && !(ref.ok && ref.nonFirst && ref.proto == fp.Protocol && fp.Fragment) {
-		w.report("v6: an extension-header number is reported as the upper-layer protocol (err=nil)", ref.ok, d, mk)
+		w.report("v6: an extension-header number is reported as the upper-layer protocol (err=nil)", ref.ok, d, c20DetPacket)
 		return
 	}
 	if !ref.ok {
-		w.report(ver+": err=nil but "+ref.why, false, d, mk)
+		w.report(ver+": err=nil but "+ref.why, false, d, c20DetPacket)
 		return
 	}
-	bad := func(field string) { w.report(ver+": "+field+" differs from the independent parser", true, d, mk) }
 	dir := "(outgoing)"
 	local, remote := ref.src, ref.dst
 	lport, rport := ref.sport, ref.dport
@@ -528,39 +568,39 @@ func (w *c20Worker) judge(d []byte, incoming bool, ref *c20Ref, fp *firewall.Par
 		lport, rport = ref.dport, ref.sport
 	}
 	if fp.LocalAddr != local || fp.RemoteAddr != remote {
-		bad("LocalAddr/RemoteAddr " + dir)
+		w.bad(ver, "LocalAddr/RemoteAddr "+dir, d)
 	}
 	if fp.Protocol != ref.proto {
-		bad("Protocol")
+		w.bad(ver, "Protocol", d)
 	}
 	if fp.Fragment != ref.nonFirst {
-		bad("Fragment")
+		w.bad(ver, "Fragment", d)
 	}
 	if fp.FragAny != ref.fragAny {
-		bad("FragAny")
+		w.bad(ver, "FragAny", d)
 	}
 	if ref.hdrLenDef && fp.IPHdrLen != ref.hdrLen {
-		bad("IPHdrLen")
+		w.bad(ver, "IPHdrLen", d)
 	}
 	switch {
 	case ref.nonFirst:
 		if fp.LocalPort != 0 || fp.RemotePort != 0 {
-			bad("ports of a non-first fragment (must be 0)")
+			w.bad(ver, "ports of a non-first fragment (must be 0)", d)
 		}
 	case ref.portsDef:
 		if fp.LocalPort != lport || fp.RemotePort != rport {
-			bad("LocalPort/RemotePort " + dir)
+			w.bad(ver, "LocalPort/RemotePort "+dir, d)
 		}
 		if lport != 0 && rport != 0 && lport != rport {
 			w.n[c20nPorts]++
 		}
 	case ref.isICMP:
 		if fp.LocalPort != 0 {
-			bad("ICMP LocalPort (must be 0)")
+			w.bad(ver, "ICMP LocalPort (must be 0)", d)
 		}
 		if ref.idDef {
 			if fp.RemotePort != ref.icmpID {
-				bad("ICMP identifier")
+				w.bad(ver, "ICMP identifier", d)
 			}
 			if ref.icmpID != 0 {
 				w.n[c20nICMPID]++
@@ -625,12 +665,9 @@ func (w *c20Worker) checkWalker(d []byte, ref *c20Ref) {
 	if len(d) < 40 {
 		rw = c20WalkV6(d)
 	}
-	mk := func() map[string]any {
-		return map[string]any{"site": "iputil.IPv6FindUpperProtocol", "impl": map[string]any{"proto": p, "offset": off, "isFragment": isFrag, "anyFragment": anyFrag, "err": fmt.Sprint(err)},
-			"reference": map[string]any{"ok": rw.ok, "why": rw.why, "proto": rw.proto, "offset": rw.off, "non_first_fragment": rw.nonFirst, "any_fragment": rw.fragAny, "ext_headers_walked": rw.n}}
-	}
+	w.wk = c20WalkCtx{p, off, isFrag, anyFrag, err, panicked, rw}
 	if panicked != nil {
-		w.report("v6: IPv6FindUpperProtocol panics", rw.ok, d, func() map[string]any { m := mk(); m["panic"] = fmt.Sprint(panicked); return m })
+		w.report("v6: IPv6FindUpperProtocol panics", rw.ok, d, c20DetWalker)
 		return
 	}
 	if err != nil {
@@ -639,27 +676,30 @@ func (w *c20Worker) checkWalker(d []byte, ref *c20Ref) {
 	}
 	w.n[c20nWalkerOK]++
 	if c20IsExt(p) && !(rw.ok && rw.nonFirst && rw.proto == p && isFrag) {
-		w.report("v6: an extension-header number is reported as the upper-layer protocol (err=nil)", rw.ok, d, mk)
+		w.report("v6: an extension-header number is reported as the upper-layer protocol (err=nil)", rw.ok, d, c20DetWalker)
 		return
 	}
 	if !rw.ok {
-		w.report("v6: err=nil but "+rw.why, false, d, mk)
+		w.report("v6: err=nil but "+rw.why, false, d, c20DetWalker)
 		return
 	}
 	if p != rw.proto {
-		w.report("v6: IPv6FindUpperProtocol protocol differs from the independent walker", true, d, mk)
+		w.report("v6: IPv6FindUpperProtocol protocol differs from the independent walker", true, d, c20DetWalker)
 	}
 	if isFrag != rw.nonFirst || anyFrag != rw.fragAny {
-		w.report("v6: IPv6FindUpperProtocol fragment flags differ from the independent walker", true, d, mk)
+		w.report("v6: IPv6FindUpperProtocol fragment flags differ from the independent walker", true, d, c20DetWalker)
 	}
 	if !rw.nonFirst && off != rw.off {
-		w.report("v6: IPv6FindUpperProtocol offset differs from the independent walker", true, d, mk)
+		w.report("v6: IPv6FindUpperProtocol offset differs from the independent walker", true, d, c20DetWalker)
 	}
 }
 
 type c20Job struct {
 	fam string
 	run func(w *c20Worker)
+	// distinct: the family enumerates pairwise distinct byte strings by construction (and shares none with another
+	// family), so non-trivial cases are counted directly; otherwise they go through the hash bitmap
+	distinct bool
 }
 
 func c20RunJobs(c *mc.Check, seen *c20Bitmap, jobs []c20Job) (ws []*c20Worker, capped bool) {
@@ -683,7 +723,7 @@ func c20RunJobs(c *mc.Check, seen *c20Bitmap, jobs []c20Job) (ws []*c20Worker, c
 					skipped.Add(1)
 					continue
 				}
-				w.famCur = jobs[j].fam
+				w.famCur, w.famDistinct = jobs[j].fam, jobs[j].distinct
 				jobs[j].run(w)
 			}
 		}()
@@ -824,8 +864,7 @@ func c20BuildV6(flow uint16, chain []c20Ext, upperNH uint8, upper []byte) (p []b
 		bounds = append(bounds, off)
 		sz := c20ExtSize(e)
 		h := p[off : off+sz]
-		for j := range h {
-			h[j] = 0xfd // bait: read as a next-header value this is an (experimental) upper-layer protocol
+		for j := 0; j < len(h); j += copy(h[j:], c20Fd[:]) { // bait: read as a next-header value 0xfd is an (experimental) upper-layer protocol
 		}
 		h[0] = next
 		switch e.nh {
@@ -873,6 +912,13 @@ func c20BuildV6(flow uint16, chain []c20Ext, upperNH uint8, upper []byte) (p []b
 	bounds = append(bounds, total)
 	return p, bounds
 }
+
+var c20Fd = func() (b [256]byte) {
+	for i := range b {
+		b[i] = 0xfd
+	}
+	return
+}()
 
 type c20Upper struct {
 	name string
@@ -1001,20 +1047,12 @@ func c20Truncs(total int, bounds []int, from int) []int {
 		}
 		return out
 	}
-	set := make([]bool, total+1)
-	n := 0
+	var out []int
+	next := from // bounds ascend: merge the neighbourhoods
 	for _, b := range bounds {
-		for l := b - 3; l <= b+9; l++ {
-			if l >= from && l <= total && !set[l] {
-				set[l] = true
-				n++
-			}
-		}
-	}
-	out := make([]int, 0, n)
-	for l, in := range set {
-		if in {
+		for l := max(next, b-3); l <= b+9 && l <= total; l++ {
 			out = append(out, l)
+			next = l + 1
 		}
 	}
 	return out
@@ -1185,12 +1223,12 @@ func TestVerifC20(t *testing.T) {
 	defer c.End()
 	defer debug.SetGCPercent(debug.SetGCPercent(1000)) // tiny live heap, high allocation rate: collect less often
 	thorough := c.Thorough()
-	seen := newC20Bitmap(mc.Pick[uint](c, 27, 30))
+	seen := newC20Bitmap(28)
 	var jobs, extraJobs, v6Jobs []c20Job // core box first, the big IPv6 family in a strided order, thorough-only extras last
 
 	// ---- family 1: every short byte string -----------------------------------------------------------------------
 	maxShort := mc.Pick(c, 2, 3)
-	jobs = append(jobs, c20Job{"short<=2", func(w *c20Worker) {
+	jobs = append(jobs, c20Job{fam: "short<=2", run: func(w *c20Worker) {
 		w.check([]byte{})
 		for a := 0; a < 256; a++ {
 			w.check([]byte{byte(a)})
@@ -1201,7 +1239,7 @@ func TestVerifC20(t *testing.T) {
 	}})
 	if maxShort >= 3 {
 		for a := 0; a < 256; a++ {
-			extraJobs = append(extraJobs, c20Job{"short=3", func(w *c20Worker) {
+			extraJobs = append(extraJobs, c20Job{fam: "short=3", run: func(w *c20Worker) {
 				buf := []byte{byte(a), 0, 0}
 				for b := 0; b < 256; b++ {
 					for x := 0; x < 256; x++ {
@@ -1259,42 +1297,45 @@ func TestVerifC20(t *testing.T) {
 
 	for _, sd := range seeds {
 		jobs = append(jobs, c20Job{"seed-1edit", func(w *c20Worker) {
+			// every mutant is generated exactly once (canonical form: an edit inside a run of equal bytes is made at the
+			// start of the run), so no deduplication set is needed
 			s := sd.pkt
-			dup := map[string]struct{}{}
-			emit := func(m []byte) {
-				if _, ok := dup[string(m)]; ok {
-					return
-				}
-				dup[string(m)] = struct{}{}
-				w.check(m)
-			}
-			emit(s)
+			w.check(s)
 			m := make([]byte, len(s))
 			for pos := range s { // substitutions (includes every 1-bit flip)
 				copy(m, s)
 				for v := 0; v < 256; v++ {
 					if byte(v) != s[pos] {
 						m[pos] = byte(v)
-						emit(m)
+						w.check(m)
 					}
 				}
 			}
-			for pos := range s { // deletions
-				emit(append(append([]byte{}, s[:pos]...), s[pos+1:]...))
+			del := make([]byte, len(s)-1)
+			for pos := range s { // deletions (deleting any byte of a run gives the same string: first of the run only)
+				if pos > 0 && s[pos] == s[pos-1] {
+					continue
+				}
+				copy(del, s[:pos])
+				copy(del[pos:], s[pos+1:])
+				w.check(del)
 			}
 			ins := make([]byte, len(s)+1)
-			for pos := 0; pos <= len(s); pos++ { // insertions
+			for pos := 0; pos <= len(s); pos++ { // insertions (inserting v after a v equals inserting it before that v)
 				copy(ins, s[:pos])
 				copy(ins[pos+1:], s[pos:])
 				for v := 0; v < 256; v++ {
+					if pos > 0 && byte(v) == s[pos-1] {
+						continue
+					}
 					ins[pos] = byte(v)
-					emit(ins)
+					w.check(ins)
 				}
 			}
-			for l := 0; l < len(s); l++ { // truncations
-				emit(s[:l])
+			for l := 0; l < len(s)-1; l++ { // truncations (len-1 is the deletion of the last run)
+				w.check(s[:l])
 			}
-		}})
+		}, true})
 		if thorough { // every value of every adjacent byte pair (16-bit fields) in the first 72 bytes
 			extraJobs = append(extraJobs, c20Job{"seed-2adjacent", func(w *c20Worker) {
 				s := sd.pkt
@@ -1309,7 +1350,7 @@ func TestVerifC20(t *testing.T) {
 						w.check(m)
 					}
 				}
-			}})
+			}, true})
 		}
 	}
 
@@ -1341,8 +1382,9 @@ func TestVerifC20(t *testing.T) {
 	}
 	for _, sw := range sweeps {
 		for hi := 0; hi < 256; hi++ {
-			jobs = append(jobs, c20Job{"sweep " + sw.name, func(w *c20Worker) {
+			jobs = append(jobs, c20Job{fam: "sweep " + sw.name, run: func(w *c20Worker) {
 				m := append([]byte{}, sw.base...)
+				m[1] |= 0x10 // TOS / traffic class bit: keeps the sweeps more than two edits away from every seed
 				m[sw.p1] = byte(hi)
 				for lo := 0; lo < 256; lo++ {
 					m[sw.p2] = byte(lo)
@@ -1378,15 +1420,23 @@ func TestVerifC20(t *testing.T) {
 	}
 	for ihl := 0; ihl <= 15; ihl++ {
 		jobs = append(jobs, c20Job{"structured-v4", func(w *c20Worker) {
+			hl := max(ihl*4, 20)
 			for _, ff := range fragFields {
+				seenProto := [256]bool{}
 				for _, l4 := range v4l4s {
 					p := c20BuildV4(ihl, ff, l4.proto, 0x4242, l4.body)
-					for l := 19; l <= len(p); l++ { // lengths below 19 are covered by the seed truncations
+					p[1] = 0x20 // TOS: more than two edits away from every seed (distinct-by-construction counting)
+					from := 19  // lengths below 19 are covered by the seed truncations
+					if seenProto[l4.proto] {
+						from = hl + 1 // same header as an earlier body (ICMP types): shorter cuts would repeat it
+					}
+					seenProto[l4.proto] = true
+					for l := from; l <= len(p); l++ {
 						w.check(p[:l])
 					}
 				}
 			}
-		}})
+		}, true})
 	}
 
 	// ---- family 5: structured IPv6 chains --------------------------------------------------------------------------
@@ -1418,12 +1468,29 @@ func TestVerifC20(t *testing.T) {
 							continue // no length byte to vary: identical to mode 0
 						}
 					}
+					if lm == 3 {
+						nlen := 0
+						for _, x := range ch {
+							if c20Syms[x].nh != 44 {
+								nlen++
+							}
+						}
+						if nlen == 1 {
+							continue // first == last length-carrying header: identical to mode 2
+						}
+					}
 					ex := c20ChainExts(ch, lm)
+					type nhLen struct {
+						nh uint8
+						n  int
+					}
+					var done []nhLen
 					for ui, up := range uppers {
 						if !thorough && len(ch) > fullLen && ui%3 != 0 {
 							continue // quick tier: long chains x {tcp, icmp6-ns, mobility}
 						}
 						p, bounds := c20BuildV6(0x0c20, ex, up.nh, up.body)
+						p[1] = 0x10 // traffic class bit: more than two edits away from every seed
 						from := 40
 						if len(ch) == 0 {
 							from = 0
@@ -1432,13 +1499,19 @@ func TestVerifC20(t *testing.T) {
 							// quick tier: long chains are cut only where the walk can end
 							from = bounds[min(len(ch)-3, 7)] - 2
 						}
+						for _, dn := range done {
+							if dn.nh == up.nh && dn.n == len(up.body) {
+								from = max(from, bounds[len(ch)]+1) // same headers as an earlier upper layer: shorter cuts would repeat it
+							}
+						}
+						done = append(done, nhLen{up.nh, len(up.body)})
 						for _, l := range c20Truncs(len(p), bounds, from) {
 							w.check(p[:l])
 						}
 					}
 				}
 			}
-		}})
+		}, true})
 	}
 
 	// strided order: should the soft budget cut the run short, every chain length and kind has been touched
@@ -1547,7 +1620,8 @@ func TestVerifC20(t *testing.T) {
 	c.Set("evaluations", n[c20nEvals])
 	c.Set("distinct_nontrivial", n[c20nNonTrivial])
 	c.Set("rule", "one evaluation = one newPacket call on one (byte string, direction); every family enumerates its box completely (short strings, 1-edit mutants of 40 seeds, 16-bit field sweeps, IPv4 IHL x fragment field x protocol x truncation, IPv6 chain x upper layer x declared length x truncation). "+
-		"Non-trivial = accepted by the real parser or resolvable by the reference; distinct = first occurrence of a 64-bit hash of (bytes, direction) in a fixed hash bitmap, a collision counting as a duplicate (lower bound).")
+		"Non-trivial = accepted by the real parser or resolvable by the reference. Distinct: the seed-mutant and structured families generate pairwise distinct byte strings by construction (canonical edits; cuts that would repeat an earlier packet are skipped; a TOS/traffic-class marker and the id/flow-label keep families more than two edits apart) and are counted directly; "+
+		"the sweep families go through a 64-bit hash of (bytes, direction) in a fixed hash bitmap, a collision counting as a duplicate (lower bound).")
 	c.Set("byte_strings_per_family", fam)
 	c.Set("accepted_by_both_v4", n[c20nBothAccept4])
 	c.Set("accepted_by_both_v6", n[c20nBothAccept6])
